@@ -411,8 +411,8 @@ def rule_P(ctx):
     ctx.extra['C20.P cases'] = cases
 
 
-def rule_W(ctx):
-    """C20.W wrappers pass (X, Y, qx, qy) and return (point, distance, index)"""
+def proj_on_track_rule(ctx, rule='C20.W'):
+    """the wrapper hands the CURRENT coordinates of the track and of the point to proj_polyligne and returns (point, distance, index)"""
     f = None
     for q, fi in ctx.prog.functions.items():
         if q.startswith(MAP + '.') and fi.name.endswith('projOnTrack'):
@@ -422,29 +422,47 @@ def rule_W(ctx):
     w = Walker(f, loop_mode='skip')
     pt, tr = f.params[:2]
     outs = [o for o in w.run(body_nodocstring(f), State()) if o.kind == 'return']
-    if len(outs) != 1:
-        raise shape_error('__projOnTrack is not single-path', f.loc())
-    o = outs[0]
-    calls = [e for e in o.state.events if e.kind == 'call' and e.name == 'proj_polyligne']
-    if len(calls) != 1:
-        raise shape_error('__projOnTrack does not call proj_polyligne once', f.loc())
-    c = calls[0]
+    if not outs:
+        raise shape_error('__projOnTrack has no return', f.loc())
     want = ['%s.getX()' % tr, '%s.getY()' % tr, '%s.getX()' % pt, '%s.getY()' % pt]
-    got = [a.single_atom() if isinstance(a, Rat) else repr(a) for a in c.args]
-    ctx.check(got == want, 'C20.W', f, 'proj_polyligne(track X, track Y, point x, point y) in this order',
-              witness={'arguments': got, 'expected': want}, node=c.node, key='args')
-    v = o.value
-    res = c.value
-    okv = isinstance(v, tuple) and len(v) == 3
-    if okv:
-        p0 = v[0].single_atom() if isinstance(v[0], Rat) else ''
-        okv = p0 is not None and p0.startswith('ENUCoords(%s[1], %s[2]' % (res, res)) and \
-            isinstance(v[1], Rat) and v[1].single_atom() == res + '[0]' and \
-            isinstance(v[2], Rat) and v[2].single_atom() == res + '[3]'
-    ctx.check(okv, 'C20.W', f,
-              'returns (ENUCoords(xproj, yproj, .), distance, segment index) = tuple positions (1,2), 0, 3',
-              witness={'returned': [repr(x)[:100] for x in v] if isinstance(v, tuple) else repr(v)}, node=o.node,
-              key='ret')
+    for o in outs:
+        calls = [e for e in o.state.events if e.kind == 'call' and e.name == 'proj_polyligne']
+        if len(calls) != 1:
+            raise shape_error('__projOnTrack does not call proj_polyligne once on every path', f.loc())
+        c = calls[0]
+        got = [a.single_atom() if isinstance(a, Rat) else repr(a) for a in c.args]
+        pathtxt = [repr(cn) for cn, _ in o.state.conds]
+        if got != want:
+            # which coordinates are not read from the arguments in this call?
+            fresh = {e.value for e in o.state.events if e.kind == 'call' and e.name in ('getX', 'getY')}
+            stale = [g_ for g_, w_ in zip(got, want) if g_ != w_ and (g_ is None or not any(g_ == w2 for w2 in want))]
+            understood = all(g_ in want or (g_ or '').startswith(('getattr(', tr + '.', pt + '.')) for g_ in got)
+            if not understood:
+                raise shape_error('__projOnTrack: arguments of proj_polyligne not understood: %s' % got, f.loc(c.node))
+            ctx.violation(rule, f, 'proj_polyligne receives the current vertex coordinates of the track (getX(), getY()) and the point (x, y), in this order',
+                          {'arguments': got, 'expected': want, 'path': pathtxt,
+                           'why': 'coordinates taken from somewhere else (a stored copy, swapped getters) are not the geometry the caller projects on: '
+                                  'after an in-place edit of the geometry the projected point is off the edge'}, node=c.node, key='args')
+        else:
+            ctx.ok(rule, f, 'proj_polyligne(track X, track Y, point x, point y) in this order, read in this call', node=c.node)
+        v = o.value
+        res = c.value
+        okv = isinstance(v, tuple) and len(v) == 3
+        if okv:
+            p0 = v[0].single_atom() if isinstance(v[0], Rat) else ''
+            okv = p0 is not None and p0.startswith('ENUCoords(%s[1], %s[2]' % (res, res)) and \
+                isinstance(v[1], Rat) and v[1].single_atom() == res + '[0]' and \
+                isinstance(v[2], Rat) and v[2].single_atom() == res + '[3]'
+        ctx.check(okv, rule, f,
+                  'returns (ENUCoords(xproj, yproj, .), distance, segment index) = tuple positions (1,2), 0, 3',
+                  witness={'returned': [repr(x)[:100] for x in v] if isinstance(v, tuple) else repr(v)}, node=o.node,
+                  key='ret')
+    return f
+
+
+def rule_W(ctx):
+    """C20.W wrappers pass (X, Y, qx, qy) and return (point, distance, index)"""
+    f = proj_on_track_rule(ctx)
     # mapOnTrack: per-observation wiring.  The function only moves values around (no arithmetic on them): interpret it with abstract
     # objects - a track of three observations (two share their X, two share their Y, none coincide) and an uninterpreted projector
     g = ctx.prog.func(MAP + '.mapOnTrack')
